@@ -97,6 +97,12 @@ type Value interface{}
 
 type NilVal struct{}
 
+// SliceVal is a local numeric slice (make([]T, n)): cells keyed by the index term.
+type SliceVal struct {
+	Len   *sym.Term
+	Cells map[string]*sym.Term
+}
+
 // ArrVal is a fixed array of scalar temporaries (t [3]Scalar).
 type ArrVal struct{ Elems []*Loc }
 
@@ -135,7 +141,16 @@ func (k KernelFact) String() string {
 	return "for " + strings.Join(ls, ",") + ": " + k.Cont + "[" + strings.Join(ix, ",") + "] := " + k.Val.String()
 }
 
+// Access is one element access (read or write) of a container, with the loops it is nested in.
+type Access struct {
+	Cont  *sym.Term
+	Idx   []*sym.Term
+	Loops []LoopCtx
+	Pos   token.Pos
+}
+
 type Path struct {
+	Accesses []Access
 	Facts  []KernelFact
 	Conds  []CondV
 	Events []Event
@@ -196,6 +211,7 @@ type Interp struct {
 	loopDepth int
 	// Loops currently open (outermost first), for events recorded inside loops.
 	loops []LoopCtx
+	curPos    token.Pos
 	elemCache map[string]*Loc
 	elemMeta  map[*Loc]*elemInfo
 }
@@ -617,6 +633,27 @@ func (it *Interp) assignTo(lhs ast.Expr, v Value, define bool) {
 			o = it.info.Uses[x]
 		}
 		it.setVar(o, v, isDef)
+	case *ast.IndexExpr:
+		base := it.eval(x.X)
+		switch b := base.(type) {
+		case *SliceVal:
+			b.Cells[it.evalTerm(x.Index).String()] = it.toTerm(v, lhs.Pos())
+			return
+		case *Container:
+			it.curPos = x.Pos()
+			l := it.elemLoc(b, []*sym.Term{it.evalTerm(x.Index)})
+			switch t := v.(type) {
+			case *sym.Term:
+				l.Val = t
+			case *Loc:
+				l.Val = t.Val
+			default:
+				it.undecided(lhs.Pos(), "element assignment from %T", v)
+			}
+			l.Written = true
+			return
+		}
+		it.undecided(lhs.Pos(), "assignment target %s", types.ExprString(lhs))
 	default:
 		it.undecided(lhs.Pos(), "assignment target %s", types.ExprString(lhs))
 	}
@@ -754,6 +791,17 @@ func (it *Interp) eval(e ast.Expr) Value {
 		}
 	case *ast.IndexExpr:
 		base := it.eval(x.X)
+		if cont, ok := base.(*Container); ok {
+			it.curPos = x.Pos()
+			return it.elemLoc(cont, []*sym.Term{it.evalTerm(x.Index)})
+		}
+		if sl, ok := base.(*SliceVal); ok {
+			k := it.evalTerm(x.Index).String()
+			if v, ok := sl.Cells[k]; ok {
+				return v
+			}
+			return sym.Fn("cell", sym.Sym(k))
+		}
 		if a, ok := base.(*ArrVal); ok {
 			idx := it.evalTerm(x.Index)
 			if c, ok := idx.IsConst(); ok && c.IsInt() {
@@ -949,6 +997,13 @@ func (it *Interp) call(call *ast.CallExpr) Value {
 				if c, ok := v.(*Container); ok {
 					return sym.Fn("dim", c.Sym)
 				}
+				if sl, ok := v.(*SliceVal); ok {
+					return sl.Len
+				}
+			case "make":
+				if len(call.Args) == 2 {
+					return &SliceVal{Len: it.evalTerm(call.Args[1]), Cells: map[string]*sym.Term{}}
+				}
 			}
 			it.undecided(call.Pos(), "builtin %s", b.Name())
 		}
@@ -1121,6 +1176,9 @@ type elemInfo struct {
 func (it *Interp) elemLoc(c *Container, idx []*sym.Term) *Loc {
 	args := append([]*sym.Term{c.Sym}, idx...)
 	init := sym.Fn("elem", args...)
+	if it.cfg.KernelMode {
+		it.path.Accesses = append(it.path.Accesses, Access{Cont: c.Sym, Idx: idx, Loops: append([]LoopCtx{}, it.loops...), Pos: it.curPos})
+	}
 	if !it.cfg.KernelMode {
 		l := it.newLoc("elem", init)
 		l.Const = true
@@ -1181,6 +1239,7 @@ func sortStrings(s []string) {
 }
 
 func (it *Interp) containerMethod(c *Container, name string, call *ast.CallExpr) Value {
+	it.curPos = call.Pos()
 	switch name {
 	case "Dim":
 		return sym.Fn("dim", c.Sym)
@@ -1198,6 +1257,8 @@ func (it *Interp) containerMethod(c *Container, name string, call *ast.CallExpr)
 		return &IterVal{C: c, Idx: sym.Sym([]string{"$j", "$k", "$l", "$m"}[it.loopDepth%4])}
 	case "ElementType":
 		return sym.Sym("elemtype")
+	case "storageLocation":
+		return sym.Fn("storage", c.Sym)
 	}
 	it.undecided(call.Pos(), "container method %s", name)
 	return nil
@@ -1234,6 +1295,14 @@ func (it *Interp) scalarMethod(recv *Loc, name string, fn *types.Func, call *ast
 		return sym.Fn("nvars", sym.Sym(recv.Name))
 	case name == "Type":
 		return sym.Sym("type(" + recv.Name + ")")
+	case name == "Equals" || name == "EQUALS":
+		if len(call.Args) >= 1 {
+			if o, ok := it.eval(call.Args[0]).(*Loc); ok {
+				return &BoolVal{C: &Cond{Op: "equals", A: recv.Val, B: o.Val}}
+			}
+		}
+		it.undecided(pos, "Equals operand")
+		return nil
 	case name == "Reset":
 		recv.Val = sym.Zero()
 		recv.Consistent = true
@@ -1572,10 +1641,10 @@ func (it *Interp) forStmt(x *ast.ForStmt) {
 	it.loops = append(it.loops, LoopCtx{Var: bname, Lo: lo, Hi: hi})
 	it.block(x.Body.List)
 	it.loops = it.loops[:len(it.loops)-1]
-	if it.done && !it.path.Panic {
+	if it.done && !it.path.Panic && !it.cfg.KernelMode {
 		it.undecided(pos, "return inside loop")
 	}
-	if len(it.path.Conds) != nCondsBefore {
+	if len(it.path.Conds) != nCondsBefore && !it.cfg.KernelMode {
 		it.undecided(pos, "data-dependent branch inside loop body (%s)", it.path.Conds[len(it.path.Conds)-1])
 	}
 	_ = nEventsBefore
